@@ -272,6 +272,7 @@ class Hub:
         self.steps = 0
         self.crashed = False
         self.crash_label = None
+        self.killed_label = None
         self.exit_code = None
         self.map_state = None
         self.maps = []            # per map: {"fn":..., "placement": {slot: [tasks]}}
@@ -450,6 +451,29 @@ class Hub:
                 self.trace.append(["ev", seq, a.slot, label])
                 self._observe(a, m, seq)
                 f = self.fault
+                if f.get("kind") == "kill_actor" and f.get("index") == seq and a.role != "worker":
+                    # only this top-level actor dies (OOM killer, scancel of one job); its peers go on
+                    phase = f.get("phase", "before")
+                    if phase == "after":
+                        ans = {"a": "go_report"}
+                        if m["k"] == "getmtime":
+                            ans["mtime"] = self.mtimes.get(m["p"], 0)
+                        self._reply(a, ans)
+                        self._recv(a, deadline)
+                    self.trace.append(["kill_actor", a.slot, phase, seq])
+                    self.killed_label = label
+                    try:
+                        os.kill(a.pid, signal.SIGKILL)
+                    except ProcessLookupError:
+                        pass
+                    try:
+                        os.waitpid(a.pid, 0)
+                    except ChildProcessError:
+                        pass
+                    a.alive, a.pending = False, None
+                    exit_codes[a.slot] = "killed"
+                    running = None
+                    continue
                 hit = f.get("kind") == "kill" and f.get("index") == seq
                 if hit and f.get("phase") == "before":
                     self.crashed, self.crash_label = True, label
